@@ -190,7 +190,10 @@ def make_cases(ctx, first):
                     if rnd == 0:
                         for r_ in refs:
                             w.blob(repo, g.bytes[r_])
-                        w.push(repo, body, mt0, refs, tag=rng.choice(["t1", "t2"]), kind="image")
+                        kids0 = g.man[d0].get("kids")
+                        dn_ = w.push(repo, body, mt0, refs, tag=rng.choice(["t1", "t2"]), kind="image")
+                        if kids0:
+                            g.man[dn_]["kids"] = list(kids0)
                 gcn += 1
                 w.collect(repo, gcn)
                 gk = [k for k, s_ in enumerate(w.steps) if s_.get("gcid") == gcn][0]
@@ -213,7 +216,9 @@ def make_cases(ctx, first):
                         j = json.loads(w.g[repo].bytes[d0].decode())
                         j["annotations"] = dict(j.get("annotations") or {}, twin=str(len(w.steps)))
                         twin = json.dumps(j).encode()
-                        w.push(repo, twin, MT_OCI_M, list(w.g[repo].man[d0]["refs"]), tag="t2" if w.g[repo].tags.get("t2") != d0 else "t1", kind="image")
+                        dt_ = w.push(repo, twin, MT_OCI_M, list(w.g[repo].man[d0]["refs"]), tag="t2" if w.g[repo].tags.get("t2") != d0 else "t1", kind="image")
+                        if w.g[repo].man[d0].get("kids"):
+                            w.g[repo].man[dt_]["kids"] = list(w.g[repo].man[d0]["kids"])
                         w.add(blob_delete(repo, d0))
                 if rng.random() < 0.3:
                     # an upload session is open (between two chunks, or abandoned) while the collections run: it is none of their business
